@@ -7,7 +7,7 @@ import re
 
 from .. import AnalysisError
 from ..absint import Interp, State, V
-from ..astutil import deref, names_in, walk_stmts
+from ..astutil import bind_call, deref, names_in, walk_stmts
 from ..consteval import ConstEval, NotConstant
 from ..domains.nullness import NullDomain, VV
 from ..model import src_of
@@ -70,7 +70,7 @@ def _label_of(f, e):
 def run(ctx):
     prog = ctx.prog
     ce = ConstEval(prog)
-    ctx.clauses_decided = ["R2 FCHK label tables", "R3 index offsets (writers)", "R4 FCIDUMP index-order pairing", "R5 lookup-table bijections", "R6 POSCAR same-order coherence", "R7 dict attributes never None", "R8 FCHK run-type vocabulary"]
+    ctx.clauses_decided = ["R2 FCHK label tables", "R3 index offsets (writers)", "R4 FCIDUMP index-order pairing", "R5 lookup-table bijections", "R6 POSCAR same-order coherence", "R7 dict attributes never None", "R8 FCHK run-type vocabulary", "R9 options reach the per-frame routines", "R10 writer flattening vs reader reshape (symbolic evaluation)"]
     ctx.clauses_declined = ["equality of real data to the digits printed", "behaviour at field overflow", "multi-line titles", "whether every optional attribute present is written", "R1/R9: decided under C03-R5 / C03-R2"]
 
     # ------------------------------------------------------------------ R2
@@ -331,3 +331,84 @@ def run(ctx):
                 lost.append(f"{rt}->{emitted}->{back}")
         if lost:
             ctx.violate("R8", f"documented run types are written with strings the reader does not map back (its keys are {sorted(rmap)}): {lost}; the run type is lost on reload", lo, rnode, construct="run_type vocabulary: " + ", ".join(lost))
+
+    # ------------------------------------------------------------------ R9
+    ctx.rule("R9", "every option a format entry point accepts reaches its body (per-frame routines get the caller's options)", "an option such as atom_columns is accepted but silently ignored on one path: the trajectory is written/read with defaults")
+    nparams = 0
+    nopt = 0
+    for short in prog.format_modules():
+        for op in ("load_one", "load_many", "dump_one", "dump_many"):
+            g = prog.format_op(short, op)
+            if g is None:
+                continue
+            used = {n.id for n in g.own_nodes() if isinstance(n, ast.Name) and isinstance(n.ctx, ast.Load)}
+            for nested in g.nested.values():
+                used |= {n.id for n in ast.walk(nested.node) if isinstance(n, ast.Name) and isinstance(n.ctx, ast.Load)}
+            for i, prm in enumerate(g.posparams + g.kwonly):
+                nparams += 1
+                if prm in used:
+                    if i >= (1 if op.startswith("load") else 2) or prm in g.kwonly:
+                        nopt += 1
+                        ctx.ok("R9", f"{short}.{op}: option `{prm}` is used", f"{g.module.relpath}:{g.lineno}", sample=(nopt % 4 == 1))
+                    continue
+                ctx.violate("R9", f"{short}.{op} accepts `{prm}` but never reads it: the caller's value is ignored (the per-frame routine runs with its default)", g, g.node, construct=f"{op} ignores {prm}")
+            # the many-frame routine forwards each of its options that the one-frame routine also has
+            if op in ("load_many", "dump_many"):
+                one = prog.format_op(short, op.replace("many", "one"))
+                if one is None:
+                    continue
+                shared = [p_ for p_ in (g.posparams[(1 if op.startswith("load") else 2):] + g.kwonly) if p_ in one.params]
+                for cs in g.calls:
+                    if one in cs.callees and cs.registry_op is None:
+                        b, e, okb = bind_call(cs.node, one)
+                        for p_ in shared:
+                            a = b.get(p_)
+                            if isinstance(a, ast.Name) and a.id == p_:
+                                ctx.ok("R9", f"{short}.{op} forwards `{p_}` to {one.name}", f"{g.module.relpath}:{cs.node.lineno}")
+                            elif a is None and not e:
+                                ctx.violate("R9", f"{short}.{op} calls {one.name} without its own `{p_}` option: every frame is processed with the default", g, cs.node)
+    ctx.floor("R9", nparams, 65, "entry-point parameters")
+    ctx.floor("R9", nopt, 6, "format options")
+
+    # ------------------------------------------------------------------ R10
+    ctx.rule("R10", "flattening by the writer is undone by the reader's reshape (entry by entry)", "matrices come back transposed or with rows and columns interleaved")
+    from .indexmaps import check_index_maps
+
+    check_index_maps(ctx, "R10", ["fchk_mo", "fchk_coords", "json_geometry"])
+    ctx.floor("R10", ctx.rules["R10"]["obligations"], 4, "writer/reader index-map pairs")
+
+    # ------------------------------------------------------------------ R11
+    ctx.rule("R11", "writers traverse arrays in index order, never in memory order", "a Fortran-ordered or transposed (view) array is written with its values on the wrong grid points / matrix elements")
+    droots = [g for short in prog.format_modules() for op in ("dump_one", "dump_many") for g in [prog.format_op(short, op)] if g is not None]
+    ntrav = 0
+    LAYOUT_CALLS = {"nditer": "numpy.nditer iterates in memory order unless order='C' is given", "tobytes": "raw bytes follow the memory layout", "tofile": "raw bytes follow the memory layout", "view": "a dtype view exposes the memory layout", "frombuffer": "buffers follow the memory layout", "ndenumerate": None}
+    for f in prog.callees_closure(droots):
+        for n in f.own_nodes():
+            if isinstance(n, ast.Attribute) and n.attr in ("flat",) and isinstance(n.ctx, ast.Load):
+                ntrav += 1
+                ctx.ok("R11", f"{f.name}: `.flat` iterates in C (index) order", f"{f.module.relpath}:{n.lineno}", sample=(ntrav % 6 == 1), nontrivial=False)
+            if isinstance(n, ast.Attribute) and n.attr in ("strides", "data") and isinstance(n.value, ast.Attribute) is False and n.attr == "strides":
+                ctx.violate("R11", "a writer inspects array strides (output depends on the memory layout)", f, n)
+            if not isinstance(n, ast.Call):
+                continue
+            nm = n.func.attr if isinstance(n.func, ast.Attribute) else getattr(n.func, "id", "")
+            kw = {k.arg: k.value for k in n.keywords}
+            order = kw.get("order")
+            if nm in ("ravel", "flatten", "reshape"):
+                if order is None and nm in ("ravel", "flatten") and n.args and isinstance(n.args[-1], ast.Constant) and isinstance(n.args[-1].value, str):
+                    order = n.args[-1]
+                ntrav += 1
+                if order is not None and not (isinstance(order, ast.Constant) and order.value in ("C", "F")):
+                    ctx.violate("R11", f"`{src_of(n)[:60]}` uses order={src_of(order)}: 'A'/'K' follow the memory layout of the caller's array", f, n)
+                else:
+                    ctx.ok("R11", f"{f.name}: `{nm}` with a fixed index order", f"{f.module.relpath}:{n.lineno}", sample=(ntrav % 6 == 1), nontrivial=False)
+            elif nm in LAYOUT_CALLS and LAYOUT_CALLS[nm]:
+                if nm == "nditer" and isinstance(order, ast.Constant) and order.value in ("C", "F"):
+                    ctx.ok("R11", f"{f.name}: nditer with order={order.value!r}", f"{f.module.relpath}:{n.lineno}")
+                    continue
+                r = prog.resolve_expr(f, f.module, n.func)
+                if nm in ("view",) and not (r and r[0] == "external"):
+                    # only flag .view on arrays: a bare method named view on unknown objects is rare enough to report
+                    pass
+                ctx.violate("R11", f"`{src_of(n)[:60]}`: {LAYOUT_CALLS[nm]}; two arrays with equal entries but different strides are written differently", f, n)
+    ctx.floor("R11", ntrav, 12, "array traversal sites in writers")
